@@ -21,9 +21,21 @@ Theorem C09_fields_in_declaration_order : forall c fs d,
   compile_data_expr (EStruct c fs) = Ok d ->
   exists ds, d = PConstr c ds /\ Forall2 (fun f x => compile_data_expr f = Ok x) fs ds.
 Proof. exact struct_fields_in_order. Qed.
+(** the entries of a map and the elements of a list are converted in the order written, none
+    merged, reordered or dropped *)
+Theorem C09_map_entries_in_order : forall kvs d,
+  try_as_data (EMap kvs) = Ok d ->
+  exists ps, d = PMap ps /\
+    Forall2 (fun kv p => try_as_data (fst kv) = Ok (fst p) /\ try_as_data (snd kv) = Ok (snd p)) kvs ps.
+Proof. exact map_entries_in_order. Qed.
+Theorem C09_list_elements_in_order : forall xs d,
+  try_as_data (EList xs) = Ok d -> exists ds, d = PList ds /\ Forall2 (fun x p => try_as_data x = Ok p) xs ds.
+Proof. exact list_elements_in_order. Qed.
 
 Print Assumptions C09_decode_encode.
 Print Assumptions C09_int_any_size.
 Print Assumptions C09_bytes_any_length.
 Print Assumptions C09_constr_tags.
 Print Assumptions C09_fields_in_declaration_order.
+Print Assumptions C09_map_entries_in_order.
+Print Assumptions C09_list_elements_in_order.
